@@ -71,8 +71,22 @@ Theorem C12_connectors_relocated : forall t kept cn c n, In (c, n) (relocate_con
      (memZ n0 kept = false /\ exists l1 l2, anc t n0 = l1 ++ n :: l2 /\ memZ n kept = true /\ forall y, In y l1 -> memZ y kept = false)).
 Proof. exact relocate_connectors_spec. Qed.
 Print Assumptions C12_connectors_relocated.
-(* longest_neurite and exact=True: the model functions long_segments / exact_plan are the specification the
-   implementation is compared with; no separate theorem beyond well-formedness is claimed for them (partial) *)
-Theorem C12_pruned_is_wf_partial : forall fuel t w size mask, WF t -> WF (prune_rec fuel t w size mask).
+(* exact=True: which nodes stay, which are moved and where: a moved node ends up strictly inside the edge to its parent at EXACTLY
+   `size` of cable above the farthest tip below it *)
+Theorem C12_exact_plan_spec : forall t w size i f, In (i, f) (exact_plan t w size) <->
+  exists r, In r t /\ rid r = i /\
+    let h := height (length t) t w i in let e := wget w i in
+    ((Qle_bool size h = true /\ f = 0%Q) \/
+     (Qle_bool size h = false /\ is_root r = true /\ f = 0%Q) \/
+     (Qle_bool size h = false /\ is_root r = false /\ Qle_bool (h + e) size = false /\ f = ((size - h) / e)%Q)).
+Proof. exact exact_plan_spec. Qed.
+Print Assumptions C12_exact_plan_spec.
+Theorem C12_exact_cut_point : forall h e size : Q, (0 < e)%Q -> Qle_bool size h = false -> Qle_bool (h + e) size = false ->
+  let f := ((size - h) / e)%Q in (0 < f)%Q /\ (f < 1)%Q /\ (h + f * e == size)%Q.
+Proof. exact exact_cut_point. Qed.
+Print Assumptions C12_exact_cut_point.
+(* longest_neurite: the greedy longest-first decomposition long_segments is the specification the implementation is compared with;
+   recursive twig pruning preserves well-formedness *)
+Theorem C12_pruned_is_wf : forall fuel t w size mask, WF t -> WF (prune_rec fuel t w size mask).
 Proof. exact prune_rec_wf. Qed.
-Print Assumptions C12_pruned_is_wf_partial.
+Print Assumptions C12_pruned_is_wf.
